@@ -502,4 +502,145 @@ theorem subset_of_nodup_of_length_le : ∀ {l₁ l₂ : List α}, l₁.Nodup →
     · subst hxa; exact mem_cons_self
     · exact mem_cons_of_mem _ (hih ((mem_erase_of_ne hxa).2 hx))
 
+/-! ### termination for every input (also with duplicate URNs): a decreasing measure -/
+
+/-- duplicate-free list with the same members -/
+def dedup : List α → List α
+  | [] => []
+  | a :: l => if a ∈ dedup l then dedup l else a :: dedup l
+
+theorem mem_dedup {a : α} : ∀ {l : List α}, a ∈ dedup l ↔ a ∈ l
+  | [] => by simp [dedup]
+  | b :: l => by
+    have ih := @mem_dedup a l
+    by_cases hb : b ∈ dedup l
+    · simp only [dedup, hb, if_true, mem_cons, ih]
+      constructor
+      · exact Or.inr
+      · rintro (rfl | h)
+        · exact mem_dedup.mp hb
+        · exact h
+    · simp [dedup, hb, ih]
+
+theorem nodup_dedup : ∀ l : List α, (dedup l).Nodup
+  | [] => by simp [dedup]
+  | b :: l => by
+    by_cases hb : b ∈ dedup l
+    · simp [dedup, hb, nodup_dedup l]
+    · simp [dedup, hb, nodup_dedup l]
+
+theorem length_dedup_le : ∀ l : List α, (dedup l).length ≤ l.length
+  | [] => by simp [dedup]
+  | b :: l => by
+    have := length_dedup_le l
+    by_cases hb : b ∈ dedup l <;> simp [dedup, hb] <;> omega
+
+/-- number of keys whose in-degree is still positive -/
+def posCount (K : List α) (deg : α → Int) : Nat := (K.filter (fun u => decide (1 ≤ deg u))).length
+
+omit [DecidableEq α] in
+theorem posCount_congr (K : List α) {d d' : α → Int} (h : ∀ u ∈ K, (1 ≤ d' u ↔ 1 ≤ d u)) :
+    posCount K d' = posCount K d := by
+  unfold posCount
+  congr 1
+  apply filter_congr
+  intro u hu
+  simp [h u hu]
+
+theorem posCount_drop : ∀ (K : List α) (d d' : α → Int) (x : α), K.Nodup → x ∈ K →
+    (∀ u, u ≠ x → d' u = d u) → 1 ≤ d x → ¬ (1 ≤ d' x) → posCount K d' + 1 = posCount K d
+  | [], _, _, _, _, hx, _, _, _ => by simp at hx
+  | k :: K, d, d', x, hnd, hx, hne, h1, h2 => by
+    rw [nodup_cons] at hnd
+    by_cases hk : k = x
+    · subst hk
+      have hrest : posCount K d' = posCount K d := by
+        apply posCount_congr
+        intro u hu
+        have : u ≠ k := fun h => hnd.1 (h ▸ hu)
+        rw [hne u this]
+      simp only [posCount, filter_cons, h1, h2, decide_true, decide_false, if_true, length_cons] at *
+      simp [hrest]
+    · have hxK : x ∈ K := by
+        rcases mem_cons.mp hx with h | h
+        · exact absurd h.symm hk
+        · exact h
+      have ih := posCount_drop K d d' x hnd.2 hxK hne h1 h2
+      have hkk : d' k = d k := hne k hk
+      simp only [posCount, filter_cons, hkk] at *
+      split
+      · simp only [length_cons]; omega
+      · exact ih
+
+/-- The decrement loop preserves `|queue| + #positive`. -/
+theorem decLoop_measure (K : List α) (hK : K.Nodup) : ∀ (L : List α) (deg : α → Int) (q : List α),
+    (∀ x ∈ L, x ∈ K) →
+    (decLoop L (deg, q)).2.length + posCount K (decLoop L (deg, q)).1 = q.length + posCount K deg := by
+  intro L
+  induction L with
+  | nil => intro deg q _; simp [decLoop]
+  | cons x L ih =>
+    intro deg q hL
+    have hxK : x ∈ K := hL x mem_cons_self
+    have hL' : ∀ y ∈ L, y ∈ K := fun y hy => hL y (mem_cons_of_mem _ hy)
+    have hne : ∀ u, u ≠ x → upd deg x (deg x - 1) u = deg u := by intro u hu; simp [upd, hu]
+    have hxx : upd deg x (deg x - 1) x = deg x - 1 := by simp [upd]
+    by_cases h0 : upd deg x (deg x - 1) x = 0
+    · rw [decLoop]; simp only [h0, if_true]
+      rw [ih _ _ hL']
+      have hd := posCount_drop K deg (upd deg x (deg x - 1)) x hK hxK hne (by rw [hxx] at h0; omega) (by rw [h0]; omega)
+      simp; omega
+    · rw [decLoop]; simp only [h0, if_false]
+      rw [ih _ _ hL']
+      have hc : posCount K (upd deg x (deg x - 1)) = posCount K deg := by
+        apply posCount_congr
+        intro u _
+        by_cases hu : u = x
+        · subst hu; rw [hxx] at h0 ⊢; omega
+        · rw [hne u hu]
+      omega
+
+/-- With at least `|queue| + #positive` iterations the loop ends on an empty queue. -/
+theorem loop_queue_nil_general (K : List α) (hK : K.Nodup) (dependents : α → List α)
+    (hdep : ∀ r, ∀ x ∈ dependents r, x ∈ K) : ∀ (n : Nat) (s : St α),
+    s.queue.length + posCount K s.inDegree ≤ n → (Model.Order.loop dependents n s).queue = [] := by
+  intro n
+  induction n with
+  | zero =>
+    intro s h
+    have : s.queue.length = 0 := by omega
+    simpa [Model.Order.loop] using List.eq_nil_of_length_eq_zero this
+  | succ n ih =>
+    intro s h
+    rw [Model.Order.loop]
+    split
+    · next hq => exact hq
+    · next curr rest hq =>
+      apply ih
+      have hm := decLoop_measure K hK (dependents curr) s.inDegree rest (hdep curr)
+      show (decLoop (dependents curr) (s.inDegree, rest)).2.length
+        + posCount K (decLoop (dependents curr) (s.inDegree, rest)).1 ≤ n
+      rw [hm]
+      rw [hq] at h
+      simp at h
+      omega
+
+/-- Fuel adequacy of the model for EVERY input: `finalState` is reached with an empty queue. -/
+theorem finalState_queue_nil (fs : List (Field α)) : (finalState fs).queue = [] := by
+  apply loop_queue_nil_general (dedup (urnsOf fs)) (nodup_dedup _)
+  · intro r x hx
+    rw [graphOf_dependents] at hx
+    exact mem_dedup.mpr (mem_depEntries hx)
+  · have h1 : (initState fs).queue.length ≤ fs.length := by
+      have : (initState fs).queue.length ≤ (urnsOf fs).length := length_filter_le _ _
+      simpa [urnsOf] using this
+    have h2 : posCount (dedup (urnsOf fs)) (initState fs).inDegree ≤ fs.length := by
+      have a : posCount (dedup (urnsOf fs)) (initState fs).inDegree ≤ (dedup (urnsOf fs)).length :=
+        length_filter_le _ _
+      have b := length_dedup_le (urnsOf fs)
+      have c : (urnsOf fs).length = fs.length := by simp [urnsOf]
+      omega
+    simp only [fuelFor]
+    omega
+
 end ShpanVerif.Proofs.Order
